@@ -50,11 +50,16 @@ class Env(object):
         self.lists = {}  # local list accumulators -> list of terms
         self.assigned = {}  # name -> [value exprs] (plain assignments)
         self.endians = set()
+        self.scal = {}  # scalar locals -> [(cond or None, canonical text)] (conditional values after an if)
 
     def canon(self, e):
         """canonical binding text of an expression"""
         if isinstance(e, ast.AST):
-            e2 = _Subst(self.subst).visit(_copy(e))
+            m = dict(self.subst)
+            for k, vals in self.scal.items():
+                if len(vals) == 1 and k not in m:
+                    m[k] = vals[0][1]
+            e2 = _Subst(m).visit(_copy(e))
             return norm(e2)
         return str(e)
 
@@ -109,6 +114,9 @@ def _enc_block(env, stmts, acc):
                 elif isinstance(st.value, ast.IfExp) and isinstance(st.value.body, ast.List) and not st.value.body.elts:
                     # payloads = [] if payloads is None else payloads
                     pass
+                elif _scalar_value(st.value):
+                    # a scalar temporary: bindings show where the value comes from, not the name of the local
+                    env.scal[t.id] = [(None, "(%s)" % env.canon(st.value) if isinstance(st.value, (ast.BinOp, ast.BoolOp, ast.Compare, ast.IfExp)) else env.canon(st.value))]
                 continue
             continue
         if isinstance(st, ast.AugAssign) and isinstance(st.target, ast.Name) and isinstance(st.op, ast.Add):
@@ -140,14 +148,19 @@ def _enc_block(env, stmts, acc):
             alts = []
             chain = st
             other = {}
+            scal0 = {k: list(v) for k, v in env.scal.items()}
+            arm_scal = []
             while True:
                 a2 = {k: [] for k in acc}
                 loc = dict(acc)
                 for k in acc:
                     loc[k] = a2[k]
+                env.scal = {k: list(v) for k, v in scal0.items()}
+                cond_text = env.canon(chain.test)
                 r = _enc_block(env, chain.body, loc)
+                arm_scal.append((cond_text, env.scal, r is not None or _leaves(chain.body)))
                 new_names = {k: v for k, v in loc.items() if k not in acc}
-                alts.append((env.canon(chain.test), a2, r, new_names))
+                alts.append((cond_text, a2, r, new_names))
                 if len(chain.orelse) == 1 and isinstance(chain.orelse[0], ast.If):
                     chain = chain.orelse[0]
                     continue
@@ -155,10 +168,25 @@ def _enc_block(env, stmts, acc):
                 loc = dict(acc)
                 for k in acc:
                     loc[k] = a3[k]
+                env.scal = {k: list(v) for k, v in scal0.items()}
                 r = _enc_block(env, chain.orelse, loc) if chain.orelse else None
+                arm_scal.append(("else", env.scal, r is not None or _leaves(chain.orelse)))
                 new_names = {k: v for k, v in loc.items() if k not in acc}
                 alts.append(("else", a3, r, new_names))
                 break
+            # merge scalar locals over the arms that fall through
+            live = [(c, sc) for c, sc, leaves in arm_scal if not leaves]
+            merged = {}
+            for k in set().union(*[set(sc) for c, sc in live]) if live else set():
+                vals = [(c, sc.get(k)) for c, sc in live]
+                if all(v == vals[0][1] for c, v in vals):
+                    if vals[0][1] is not None:
+                        merged[k] = vals[0][1]
+                elif all(v is not None and len(v) == 1 for c, v in vals):
+                    merged[k] = [(c, v[0][1]) for c, v in vals]
+                else:
+                    merged[k] = [(None, "<conditional %s>" % k)]
+            env.scal = merged
             for k in list(acc):
                 if any(a[1][k] for a in alts):
                     acc[k].append(("ALT", [(c, a[k]) for c, a, r, nn in alts]))
@@ -182,6 +210,18 @@ def _enc_block(env, stmts, acc):
             for k in names & set(acc):
                 acc[k].append(("OPAQUE", norm(st)))
     return ret
+
+
+def _scalar_value(e):
+    if isinstance(e, (ast.List, ast.Dict, ast.Set, ast.ListComp, ast.DictComp, ast.GeneratorExp, ast.Lambda)):
+        return False
+    if isinstance(e, ast.Constant) and isinstance(e.value, (bytes, str)):
+        return False
+    return True
+
+
+def _leaves(stmts):
+    return bool(stmts) and isinstance(stmts[-1], (ast.Return, ast.Raise, ast.Continue, ast.Break))
 
 
 def _bind_loop(env, st):
@@ -264,7 +304,14 @@ def _pack_terms(env, call):
         env.endians.add(endian)
         if codes is None or len(codes) != len(args) or any(isinstance(a, ast.Starred) for a in args):
             return [("OPAQUE", norm(call))]
-        return [("P", CODES[c], env.canon(a)) for c, a in zip(codes, args)]
+        out = []
+        for c, a in zip(codes, args):
+            vals = env.scal.get(a.id) if isinstance(a, ast.Name) and a.id not in env.subst else None
+            if vals is not None and len(vals) > 1:
+                out.append(("ALT", [(cond, [("P", CODES[c], v)]) for cond, v in vals]))
+            else:
+                out.append(("P", CODES[c], env.canon(a)))
+        return out
     if isinstance(f, ast.BinOp) and isinstance(f.op, ast.Mod) and isinstance(f.left, ast.Constant):
         # ">i%si" % len(partitions), len(partitions), *partitions
         m = re.match(r"^([<>!=@]?)([a-zA-Z]*)%[sd]([a-zA-Z])$", f.left.value)
@@ -307,6 +354,18 @@ def normalise(terms):
         out.append(t)
         i += 1
     return out
+
+
+def hoist_alt(terms, discriminator):
+    """[X, ALT(c_i: B_i), Y]  ==  [ALT(c_i: X + B_i + Y)]: distribute the surrounding sequence over the (single)
+    alternative whose conditions mention `discriminator`, so that a common prefix/suffix written once outside the
+    `if` and the same bytes written in each arm give the same term."""
+    idx = [i for i, t in enumerate(terms) if t[0] == "ALT" and any(discriminator in c for c, b in t[1])]
+    if len(idx) != 1:
+        return terms
+    i = idx[0]
+    pre, post = terms[:i], terms[i + 1:]
+    return [("ALT", [(c, normalise(list(pre) + list(b) + list(post))) for c, b in terms[i][1]])]
 
 
 def _norm_inner(t):
